@@ -1889,6 +1889,31 @@ def drift(tier='quick'):
         pool += nine_frames(0, rng) + ['zz', '8D']
         lines = [list(rng.choice(pool).encode()) for _ in range(rng.randrange(5, 60))]
         evs.append(cli_event(cb, 'release', (['-f', '17', '-f', '4'] if k % 2 else []) + (['-c'] if k % 3 == 0 else []), lines, len(evs) + 1))
+    # the -D downlink log: one record per frame that reaches the decoder, judged line by line against spec/Dlog.tla
+    for k in range(12 if tier == 'quick' else 80):
+        acs = [0x4e9000 + rng.getrandbits(8) for _ in range(3)] + [0x00000a + k, 0x0abc00 + k]
+        pool = []
+        for a in acs:
+            pool += nine_frames(a, rng) + other_format_frames(a, rng)[:12]
+            pool += [short(5, enc_squawk(*[rng.randrange(8) for _ in range(4)]), a), short(4, enc_alt13(rng.randrange(-1000, 50000, 25)), a),
+                     short(4, 0, a), long_(20, enc_alt13(rng.randrange(0, 45000, 25)), bits_of(rng.getrandbits(56), 56), a)]
+        pool += nine_frames(0, rng) + ['zz', '8D', '']
+        for dfx in (24, 19, 22, 1, 3, 12):
+            # both readings of the address (AA field, AP overlay) non-zero: the frame reaches the decoder whichever the code uses
+            pool.append(hexs(with_ap(pack([(dfx, 5), (rng.getrandbits(3), 3), (acs[0], 24)]) + (bits_of(rng.getrandbits(56), 56) if dfx >= 16 else []), acs[1])))
+        lines = [list(rng.choice(pool).encode()) for _ in range(rng.randrange(5, 80))]
+        fl = [[], ['-f', '17', '-f', '4'], ['-f', '5', '-f', '21', '-f', '24'], ['-U']][k % 4]
+        logp = os.path.join(vlib.workdir(), 'dlog-%d.txt' % k)
+        r = cli.run_cli(cb, fl + ['-i', 'Q', '-D', logp], data=b''.join(bytes(l) + b'\n' for l in lines))
+        try:
+            logged = open(logp, 'rb').read().decode('utf-8', 'replace').split('\n')
+        except OSError:
+            logged = []
+        if logged and logged[-1] == '':
+            logged = logged[:-1]
+        f_ = [int(fl[i + 1]) for i in range(len(fl) - 1) if fl[i] == '-f']
+        evs.append({'e': 'dlog', 'i': len(evs) + 1, 'opts': fl, 'args': {'f': [f_] if f_ else []}, 'lines': lines, 'code': r['code'],
+                    'log': [cli.cps(x) for x in logged]})
     trc = os.path.join(vlib.workdir(), 'driftcli.trace.ndjson')
     vlib.write_ndjson(trc, evs)
     traces = traces + [trc]
